@@ -178,6 +178,14 @@ def option_job(name):
                             refs.append(("ref-inverted" + c, "%s = %s\n%s = %s%s\n" % (other, nv, name, c, other), "%s = %s\n%s = %s\n" % (other, nv, name, v1)))
                     if o.type == "signed" and (o.minv is None or o.minv < 0):
                         refs.append(("ref-negated", "%s = 1\n%s = -%s\n" % (other, name, other), "%s = 1\n%s = -1\n" % (other, name)))
+                    if o.type == "signed" and name != "indent_columns":
+                        # a negated reference to an UNSIGNED option (the negation must happen in signed arithmetic)
+                        for val in ("1", "4"):
+                            if o.minv is None or o.minv <= -int(val):
+                                refs.append(("ref-negated-unsigned", "indent_columns = %s\n%s = -indent_columns\n" % (val, name),
+                                             "indent_columns = %s\n%s = -%s\n" % (val, name, val)))
+                                refs.append(("ref-negated-unsigned-upper", "indent_columns = %s\n%s = -INDENT_COLUMNS\n" % (val, name.upper()),
+                                             "indent_columns = %s\n%s = -%s\n" % (val, name, val)))
                     for kind, a, b in refs:
                         pa = os.path.join(d, "ra.cfg"); open(pa, "w").write(a)
                         pb = os.path.join(d, "rb.cfg"); open(pb, "w").write(b)
